@@ -3,8 +3,10 @@ package main
 // C07: every (claim, mutated proof) row of table "c07" of spec/Merkle.tla is concretized (pool terms evaluated
 // with the real SHA-256 over random distinct leaves) and given to the real verifier.
 // Monitor: soundness - accepted by the real verifier  =>  the claim is true (row.truth, computed by the
-// specification's monitors SubAt / PrefixRoot / LeafOf, independent of the verifier).  A difference from the
-// transcribed verifier's verdict (row.acc) that keeps soundness is reported as drift only.
+// specification's monitors, independent of the verifier: the claim is true and the proof is the proof of that claim).
+// A difference from the transcribed verifier's verdict (row.strict = the code since fix c963b88; row.acc = the
+// consistency shortcut as it was coded before, kept as the documented counterexample) that keeps soundness is
+// reported as drift only.
 
 import (
 	"bytes"
@@ -163,9 +165,7 @@ func c07(args []string) {
 			emit("unsound")
 		case mut == "none" && !o.accepted:
 			emit("honest-rejected")
-		case o.accepted != acc && o.accepted == strict:
-			counts["matches-repaired-variant"]++
-		case o.accepted != acc:
+		case o.accepted != strict:
 			emit("drift")
 		}
 	}
